@@ -139,13 +139,34 @@ void oracle_value_equality(World& w)
          if ((a == b) != same) report("Logogram", printable(chars(a.what())) + " vs " + printable(chars(b.what())));
          if ((a != b) == (a == b)) report("Logogram", "!= is not the negation of ==");
       }
-   // basic specifiers / qualifiers: equal exactly for equal spellings
-   auto specs = w.L().decompose(Specifiers{0x3ffff});
-   for (auto& a : specs)
-      for (auto& b : specs) {
-         const bool same = chars(a.logogram().what()) == chars(b.logogram().what());
-         if ((a == b) != same) w.findings.fail("C15:equality:Basic_specifier", printable(chars(a.logogram().what())) + " vs " + printable(chars(b.logogram().what())));
-      }
+   // basic specifiers / qualifiers: equal exactly for equal spellings -- over every Logogram this Lexicon hands out by any
+   // route: get_logogram, the names of its calling conventions (the natural one included), the languages of its linkages,
+   // and the logograms of its basic specifiers and qualifiers
+   {
+      std::vector<const Logogram*> all;
+      std::set<const Logogram*> seen;
+      auto add = [&](const Logogram& l) {
+         if (all.size() < 200 && seen.insert(&l).second) all.push_back(&l);
+      };
+      add(impl::cxx_transfer().convention().name());
+      add(w.L().cxx_linkage().language());
+      add(w.L().c_linkage().language());
+      for (auto& b : w.L().decompose(Specifiers{0x3ffff})) add(b.logogram());
+      for (auto& b : w.L().decompose(Qualifiers{7})) add(b.logogram());
+      for (auto c : w.convs) add(c->name());
+      for (auto l : w.linkages) add(l->language());
+      for (auto l : w.logos) add(*l);
+      for (auto a : all)
+         for (auto b : all) {
+            const bool same = chars(a->what()) == chars(b->what());
+            const Basic_specifier sa{*a}, sb{*b};
+            const Basic_qualifier qa{*a}, qb{*b};
+            if ((sa == sb) != same || (sa != sb) == same) w.findings.fail("C15:equality:Basic_specifier", printable(chars(a->what())) + " vs " + printable(chars(b->what())));
+            if ((qa == qb) != same || (qa != qb) == same) w.findings.fail("C15:equality:Basic_qualifier", printable(chars(a->what())) + " vs " + printable(chars(b->what())));
+            if ((*a == *b) != same || (*a != *b) == same) report("Logogram", printable(chars(a->what())) + " vs " + printable(chars(b->what())));
+            w.findings.count(same ? "equal_logogram_pairs" : "unequal_logogram_pairs");
+         }
+   }
 }
 
 // ------------------------------------------------------------------ C02 -----
@@ -724,11 +745,15 @@ void oracle_accessors(World& w, bool all)
          if (f.name == "<abstract-sink>") w.findings.fail("C14:abstract-sink:" + f.val.text, "accept() handed a node to an abstract hook");
    }
    for (auto& s : st.foreign_where) {
-      const auto colon = s.find(':');
+      const auto colon = s.find(": ");
       w.findings.fail("C14:foreign-exception:" + s.substr(0, colon), s);
    }
+   for (auto& s : st.mistyped) {
+      const auto colon = s.find(": ");
+      w.findings.fail("C14:mistyped-result:" + s.substr(0, colon), s);
+   }
    for (auto& s : st.seq_bad) {
-      const auto colon = s.find(':');
+      const auto colon = s.find(": ");
       w.findings.fail("C14:sequence-protocol:" + s.substr(0, colon), s);
       w.findings.fail("C15:sequence-helpers:" + s.substr(0, colon), s);
    }
